@@ -882,6 +882,7 @@ fn f_c11_send<const H: usize, const P: usize>() {
 h!(c11_send_h0_p0, 8, f_c11_send::<0, 0>());
 h!(c11_send_h1_p1, 8, f_c11_send::<1, 1>());
 h!(c11_send_h2_p3, 8, f_c11_send::<2, 3>());
+h!(c11_send_h3_p1, 12, f_c11_send::<3, 1>());
 h!(c11_send_h255_p1, 260, f_c11_send::<255, 1>());
 h!(c11_send_h256_p1, 260, f_c11_send::<256, 1>());
 
@@ -1472,6 +1473,35 @@ h!(c08_wd_flow_established, 8, f_c08_wd_flow(WdFlow::Established, Step::Ok));
 h!(c08_wd_flow_requested, 8, f_c08_wd_flow(WdFlow::Requested, Step::Ok));
 h!(c08_wd_flow_bind, 8, f_c08_wd_flow(WdFlow::BindRequested, Step::Ok));
 h!(c08_wd_flow_established_srcerr, 8, f_c08_wd_flow(WdFlow::Established, Step::Err));
+
+/// A Push for an established flow is still inside the source when the connection ends: it is
+/// dispatched before the flow gets its end-of-stream.
+fn f_c08_wd_inflight() {
+    use tokio::io::AsyncBufRead;
+    let ep = endpoint(small_options(), KRng::fixed([1, 2, 3, 4]));
+    let mut st = install_established(&ep, ID_A, kani::any());
+    let late = leak2(kani::any());
+    ep.task.ws.lock().push_in(Frame::new_push_owned(ID_A, Bytes::from_static(&late[..])).into());
+    script_end(&ep, Step::Ok);
+    let Endpoint { mux, task, tx_msg_rx, dropped_flows_rx } = ep;
+    let r = now_or_never(task.wind_down(false, tx_msg_rx, dropped_flows_rx));
+    vassert!(r.is_some(), "P:C08 wind-down blocks although the transport ended");
+    vassert!(task.flows.read().len() == 0, "P:C08 flows survive the end of the connection");
+    let w = counting_waker();
+    let mut cx = Context::from_waker(&w);
+    match Pin::new(&mut st).poll_fill_buf(&mut cx) {
+        Poll::Ready(Ok(b)) => vassert!(b.len() == 2 && b[0] == late[0] && b[1] == late[1], "P:C08 a frame that was still in flight when the connection ended was lost or corrupted"),
+        _ => vfail!("P:C08 read after the end of the connection failed or blocked"),
+    }
+    Pin::new(&mut st).consume(2);
+    match Pin::new(&mut st).poll_fill_buf(&mut cx) {
+        Poll::Ready(Ok(b)) => vassert!(b.is_empty(), "P:C08 no end-of-stream after the end of the connection"),
+        _ => vfail!("P:C08 read blocks after the end of the connection"),
+    }
+    kani::cover!(true, "wind-down evaluated");
+    core::mem::forget((st, mux, r, task));
+}
+h!(c08_wd_inflight_established, 8, f_c08_wd_inflight());
 
 /// wind_down with an empty table and two frames queued before the end: transmitted in order
 /// before close iff this is a local drop and the sink works; never after the peer ended.
